@@ -161,6 +161,7 @@ func runC06(r *Run) {
 			break
 		}
 	}
+	consistencyHammer(r, "[C06]")
 	// ---- (2) search on the real wiring with the real entropy source
 	nLog := scale(r, 600, 6000)
 	logins, err := doLogins(nLog, 8)
